@@ -68,3 +68,17 @@ Theorem C10_inherited_keys :
     alookup k (List.fold_left (fun acc kv => aset (fst kv) (snd kv) acc) parent child) = Some oid.
 Proof. exact copy_table_lookup. Qed.
 Print Assumptions C10_inherited_keys.
+
+(* End to end: Parse succeeded, no help, nothing required is missing, and the node reached by the
+   command tokens has a user function: Dispatch is exactly one run of that function, with the
+   remaining arguments Parse returned and that node's view. *)
+Theorem C10_parse_then_dispatch :
+  forall pf md lower ro specs root st0 args w st rem nd id,
+    parse pf md lower ro specs root st0 args = mkRes w (Ok (st, rem)) ->
+    follow root (select_cmds args (labels pf md lower ro specs (init root st0) args)) = Some nd ->
+    ni_fn (n_info nd) = FnUser id ->
+    called (store st) (n_opts root) (ni_helpname (n_info nd)) = false ->
+    required_error specs (store st) nd = None ->
+    dispatch specs root st rem = DRan id rem (view_of nd (store st)).
+Proof. exact parse_then_dispatch. Qed.
+Print Assumptions C10_parse_then_dispatch.
